@@ -69,6 +69,16 @@ def run(tier: str, seed: int) -> int:
                                   f"# {cfg}", ctx=dict(site="pack_partitions_to_parquet", mode="raises", tempmode=mode))
                     continue
                 runs.append(r)
+    # more than ten non-empty output partitions (part.10 sorts before part.2 as a string)
+    for mode in (("inside",) if quick else ("inside", "outside_uuid")):
+        cfg = Cfg(n=40, nin=2, nout=12, mode=mode, seed=seed + 77)
+        r = packfs.run_pack(cfg)
+        chk.count()
+        if r.status != "returned":
+            chk.violation(f"raises|{cfg.key()}", f"pack_partitions_to_parquet raised without any fault: {getattr(r, 'error', '')}; {cfg}", f"# {cfg}",
+                          ctx=dict(site="pack_partitions_to_parquet", mode="raises", tempmode=mode))
+        else:
+            runs.append(r)
     items = [(r, packfs.reference_assign(r), None) for r in runs]
     verdicts = packfs.validate_runs(items)
     recs, meta = [], []
